@@ -25,7 +25,7 @@ func cfgText(blocking bool, sim bool) string {
 	}
 	s := fmt.Sprintf("CONSTANTS\n  Blocking = %s\n  EarlyUnlock = FALSE\n  Graphs <- MCGraphs\n  Configs <- MCConfigs\n", b)
 	if sim {
-		return s + "INIT Init\nNEXT NextSim\nINVARIANT EmitAtEnd\nCHECK_DEADLOCK FALSE\n"
+		return s + "INIT Init\nNEXT NextSim\nINVARIANTS EmitAtEnd " + invariants + "\nCHECK_DEADLOCK FALSE\n"
 	}
 	return s + "SPECIFICATION Spec\nVIEW View\nINVARIANTS " + invariants + "\nPROPERTY Termination\nCHECK_DEADLOCK TRUE\n"
 }
@@ -46,8 +46,13 @@ func run(c *core.Ctx) error {
 		graphs = append(graphs, RandomGraph(c.Rand, 4+c.Rand.Intn(2), fmt.Sprintf("random-%d-%d", c.Seed, i)))
 	}
 	configs := [][2]int{{1, 1}, {1, 2}, {2, 1}, {2, 2}}
+	simConfigs := configs
 	if c.Thorough() {
-		configs = append(configs, [2]int{3, 1}, [2]int{1, 3}, [2]int{3, 2}, [2]int{2, 3}, [2]int{3, 3})
+		// exhaustive search at three workers only with the smallest queue and vice versa (the 5-task fan-in graphs at
+		// NW=3, QCap>=2 take TLC past half an hour); the simulation (whose behaviours are replayed) covers all nine
+		// configurations and checks the same invariants on every state it visits
+		configs = append(configs, [2]int{3, 1}, [2]int{1, 3})
+		simConfigs = append(append([][2]int{}, configs...), [2]int{3, 2}, [2]int{2, 3}, [2]int{3, 3})
 	}
 	nSim := c.Pick(400, 4000)
 
@@ -78,7 +83,7 @@ func run(c *core.Ctx) error {
 
 	// ---- model checking of every (graph, NW, QCap) instance: safety, deadlock freedom, termination
 	mc := []byte(MC("MC_Async", graphs, configs))
-	bfs, err := tlc.Run(tlc.Opts{SpecDir: specDir, Module: "MC_Async", Cfg: "MC_Async.cfg", Scratch: c.Scratch, Workers: c.Workers, Timeout: 20 * time.Minute,
+	bfs, err := tlc.Run(tlc.Opts{SpecDir: specDir, Module: "MC_Async", Cfg: "MC_Async.cfg", Scratch: c.Scratch, Workers: c.Workers, Timeout: 40 * time.Minute,
 		Extra: map[string][]byte{"MC_Async.tla": mc, "MC_Async.cfg": []byte(cfgText(false, false))}})
 	if err != nil {
 		return err
@@ -113,7 +118,7 @@ func run(c *core.Ctx) error {
 		n    int
 		gmap []int // index in this run -> index in graphs (1-based); nil = identity
 	}
-	runs := []simRun{{mc, nSim, nil}, {[]byte(MC("MC_Async", fanGraphs, [][2]int{{1, 1}, {2, 1}, {3, 1}})), c.Pick(2500, 12000), fanIdx}}
+	runs := []simRun{{[]byte(MC("MC_Async", graphs, simConfigs)), nSim, nil}, {[]byte(MC("MC_Async", fanGraphs, [][2]int{{1, 1}, {2, 1}, {3, 1}})), c.Pick(2500, 12000), fanIdx}}
 	var sim *tlc.Result
 	for ri, sr := range runs {
 		sim, err = tlc.Run(tlc.Opts{SpecDir: specDir, Module: "MC_Async", Cfg: "MC_Async.cfg", Scratch: c.Scratch, Workers: 1, Timeout: 10 * time.Minute,
